@@ -397,10 +397,25 @@ def c05_layouts(tier, seed):
                 Ls.append(Layout(W, [Field("f", T_int(N), [(1, 1), (W - N + 1, N - 1)], None, "rw")], tag=f"i{N} list with 1-bit first item on u{W}"))
             if W >= 2 * N + 2:
                 Ls.append(Layout(W, [Field("a", T_int(N), [(N // 2, N // 2), (0, N // 2)], (2, N + 1, True), "rw")], tag=f"i{N} array of lists on u{W}"))
+    # structs mixing unsigned and signed fields of the same width, in both declaration orders, the signed
+    # one below the top of the storage (generator state carried from one field to the next)
+    for N in (8, 16, 32, 64):
+        for W in bases:
+            if W < 2 * N + 1:
+                continue
+            u_ = Field("u", T_uint(N), [(W - N, N)], None, "rw")
+            s_ = Field("s", T_int(N), [(1, N)], None, "rw")
+            import copy
+            Ls.append(Layout(W, [copy.deepcopy(u_), copy.deepcopy(s_)], tag=f"u{N} declared before i{N} on u{W}"))
+            Ls.append(Layout(W, [copy.deepcopy(s_), copy.deepcopy(u_)], tag=f"i{N} declared before u{N} on u{W}"))
+            if W >= 4 * N:
+                Ls.append(Layout(W, [Field("ua", T_uint(N), [(2 * N, N)], (2, N, False), "rw"), Field("sa", T_int(N), [(0, N)], (2, N, False), "rw")], tag=f"[u{N};2] declared before [i{N};2] on u{W}"))
     return Ls
 
 
 def h_signed_extra(L, f):
+    if f.ty.kind != "int":
+        return None
     """C05: negative arguments must not disturb any bit outside the field (explicit witness that
     negative values are reachable and covered)"""
     b = H.raw_sym(L)
@@ -422,7 +437,7 @@ def h_signed_extra(L, f):
 
 def plan_c05(tier, seed):
     Ls = c05_layouts(tier, seed)
-    us = units_from(Ls, lambda L: sum([[H.h_get(L, f, "C05"), H.h_set(L, f, "C05"), h_signed_extra(L, f)] + ([H.h_set2(L, f, "C05")] if (len(f.ranges) > 1 or f.array) else []) for f in L.fields], []))
+    us = units_from(Ls, lambda L: [h for h in sum([[H.h_get(L, f, "C05"), H.h_set(L, f, "C05"), h_signed_extra(L, f)] + ([H.h_set2(L, f, "C05")] if (len(f.ranges) > 1 or f.array) else []) for f in L.fields], []) if h is not None])
     add_controls(us, "C05", kinds=("get", "set", "set"))
     return Plan(us, title="signed fields", chunk=220 if tier == "quick" else 600,
                 bounds={"inputs": "all raw values x all iN values (negative included) x all indices", "layouts": "N in {8,16,32,64,128} x bases >= N x {plain (several lo), array default/explicit stride, two-range lists both orders, array of lists}"},
@@ -878,8 +893,41 @@ def c12_directed_layouts():
     return Ls
 
 
+def h_untouched(L, f):
+    """a write leaves every bit that the field does not name exactly as it was (the only clause that is
+    meaningful for lists naming a bit twice)"""
+    b = H.raw_sym(L)
+    b.append(f"let x = {L.name}::new_with_raw_value(r);")
+    il, i, sh = H.idx_lines(f)
+    b += il
+    b += H.val_sym(f.ty, "v")
+    b.append(f"let m: u128 = spec::mask({H.rng(f.ranges)}, {sh});")
+    b.append(f"let y = {H.call_with(f, 'x', i, 'v')};")
+    b.append(f'assert!(({H.raw_of(L, "y")} & !m) == (r128 & !m), "VERIF with_{f.name} changed a bit the field does not name");')
+    b.append("let mut z = x;")
+    b.append(H.call_set(f, "z", i, "v"))
+    b.append(f'assert!(({H.raw_of(L, "z")} & !m) == (r128 & !m), "VERIF set_{f.name} changed a bit the field does not name");')
+    b.append("vend!();")
+    return Harness(f"untouched_{f.name}", "\n".join(b), "pass", "untouched_bits", "C12", f.name, ())
+
+
+def c12_selfoverlap_layouts():
+    Ls = []
+    for W in (16, 32, 24, 128):
+        h, q = W // 2, W // 4
+        Ls.append(Layout(W, [Field("a", T_uint(W), [(0, h), (q, h)], None, "rw")], tag=f"self-overlapping list as wide as the storage on u{W}"))
+        Ls.append(Layout(W, [Field("a", T_uint(8), [(1, 4), (3, 4)], None, "rw"), Field("b", T_uint(3), [(W - 3, 3)], None, "rw")], tag=f"self-overlapping list plus a scalar on u{W}"))
+    return Ls
+
+
 def c12_layouts(tier, seed):
     Ls = c12_directed_layouts()
+    # several range-list fields in one struct (arrays and non-arrays mixed)
+    for W in (32, 64, 24, 128):
+        fs = [Field("imm", T_uint(6), [(7, 2), (W - 4, 4)], None, "rw"), Field("funct", T_uint(3), [(12, 1), (14, 2)], None, "rw"),
+              Field("lanes", T_uint(2), [(0, 1), (3, 1)], (2, 1, True), "rw"), Field("tail", T_int(8), [(17, 4), (9, 1), (4, 3)], None, "rw") if W >= 32 else Field("tail", T_uint(4), [(17, 2), (9, 1), (4, 1)], None, "rw"),
+              Field("plain", T_uint(2), [(5, 2)], None, "rw")]
+        Ls.append(Layout(W, fs, tag=f"several range-list fields (and an array of lists) in one struct on u{W}"))
     srnd = random.Random(1212)
     rnd = random.Random(seed * 15485863 + 12)
     n = 36 if tier == "quick" else 360
@@ -910,7 +958,9 @@ def plan_c12(tier, seed):
         return out
 
     us = units_from(Ls, hs)
-    for k in (0, len(us) // 2, len(us) - 1):
+    for k, L in enumerate(c12_selfoverlap_layouts()):
+        us.append(Unit(f"s{k:05d}", L.decl(), [h_untouched(L, f) for f in L.fields], {"layout": L, "sig": L.sig(), "tag": L.tag, "valid": True}))
+    for k in (0, len(Ls) // 2, len(Ls) - 1):
         L = us[k].meta["layout"]
         h = h_history(L, 2, "ctl_history")
         # the model forgets the second write
@@ -1507,6 +1557,12 @@ def c09_candidates(tier):
         add(W, [Field("f", T_uint(2), [(0, 2)], (3, 1, True), "rw")], "stride-less-than-width", f"[u2;3] stride 1 on u{W}")
         add(W, [Field("f", T_uint(3), [(0, 3)], (2, 0, True), "rw")], "stride-less-than-width", f"[u3;2] stride 0 on u{W}")
     add(64, [Field("f", T_int(8), [(0, 8)], (4, 7, True), "rw")], "stride-less-than-width", "[i8;4] stride 7 on u64")
+    for W in (8, 32, 24):
+        add(W, [Field("f", T_bool(), [(3, 1)], (4, 0, True), "rw")], "stride-less-than-width", f"[bool;4] stride 0 on u{W}")
+        add(W, [Field("f", T_uint(1), [(3, 1)], (4, 0, True), "rw")], "stride-less-than-width", f"[u1;4] stride 0 on u{W}")
+        add(W, [Field("f", T_bool(), [(0, 1)], (2, 0, True), "w")], "stride-less-than-width", f"write-only [bool;2] stride 0 on u{W}")
+        e = full_enum("E1", 1)
+        add(W, [Field("f", FType("enum", 1, e), [(1, 1)], (3, 0, True), "rw")], "stride-less-than-width", f"[1-bit enum;3] stride 0 on u{W}", aux=[e])
     # 4. lo > hi
     for W in (8, 32, 64, 24):
         L = Layout(W, [Field("f", T_uint(6), [(3, 0)], None, "rw", raw_attr="#[bits(6..=1, rw)]")], tag=f"reversed range 6..=1 typed u6 on u{W}")
@@ -1700,6 +1756,21 @@ def c14_candidates(tier, seed):
                         if W == 16 and (d + st + K) % 3:
                             continue
                         add(W, [f], role, f"array of lists {{0,{d}}} stride {st} K={K} on u{W}", default=D(W))
+    # an overlap that is FOLLOWED in declaration order by clean writable array / list / scalar fields
+    for W in (16, 32, 128, 24):
+        tail_arr = Field("t_arr", T_uint(2), [(W - 4, 2)], (2, 2, False), "rw")
+        tail_list = Field("t_list", T_uint(2), [(W - 5, 1), (W - 7, 1)], None, "rw")
+        add(W, [Field("a", T_uint(4), [(0, 4)], None, "rw"), Field("b", T_uint(4), [(3, 4)], None, "rw"), tail_arr], "overlap-followed-by-clean-fields", f"two overlapping scalars then a clean array on u{W}", default=D(W))
+        add(W, [Field("a", T_uint(4), [(0, 1), (1, 1), (1, 1), (2, 1)], None, "rw"), Field("t_list", T_uint(2), [(W - 5, 1), (W - 7, 1)], None, "rw")], "overlap-followed-by-clean-fields", f"self-overlapping list then a clean list on u{W}", default=D(W))
+        add(W, [Field("a", T_uint(2), [(0, 1), (2, 1)], (2, 2, True), "rw"), Field("t_arr", T_uint(2), [(W - 4, 2)], (2, 2, False), "rw"), Field("t_list", T_uint(2), [(W - 5, 1), (W - 7, 1)], None, "rw")], "overlap-followed-by-clean-fields", f"colliding array of lists then clean array and list on u{W}", default=D(W))
+        add(W, [Field("x", T_uint(3), [(4, 3)], None, "rw"), Field("a", T_uint(4), [(0, 4)], None, "rw"), Field("b", T_bool(), [(2, 1)], None, "w"), Field("t_arr", T_bool(), [(W - 3, 1)], (3, 1, False), "rw")], "overlap-followed-by-clean-fields", f"clean scalar, overlapping pair, clean bool array on u{W}", default=D(W))
+        add(W, [Field("t_arr", T_uint(2), [(W - 4, 2)], (2, 2, False), "rw"), Field("a", T_uint(4), [(0, 4)], None, "rw"), Field("b", T_uint(4), [(3, 4)], None, "rw")], "overlapping-scalar-fields", f"clean array first, overlapping scalars last on u{W}", default=D(W))
+    # self-overlapping lists as wide as the base (alone, no default): "complete" only by counting bits twice
+    for W in (16, 24, 128):
+        h = W // 2
+        q = W // 4
+        add(W, [Field("a", T_uint(W), [(0, h), (q, h)], None, "rw")], "self-overlapping-list", f"self-overlapping list as wide as u{W} as the only field, no default")
+        add(W, [Field("a", T_uint(W), [(0, h), (q, h)], None, "w")], "self-overlapping-list", f"write-only self-overlapping list as wide as u{W}, with default", default=D(W))
     # three-item lists with a far collision
     add(16, [Field("a", T_uint(3), [(0, 1), (1, 1), (6, 1)], (3, 3, True), "rw")], "colliding-array-of-lists", "items {0,1,6} stride 3 K=3: element 0 and 2 share bit 6", default=D(16))
     add(32, [Field("a", T_uint(4), [(0, 2), (12, 2)], (4, 4, True), "rw")], "colliding-array-of-lists", "ranges {0..1,12..13} stride 4 K=4: element 0 and 3 collide", default=D(32))
@@ -1797,6 +1868,14 @@ def c10_candidates(tier, seed):
         if N < 64:
             add(N, [0, top + 1], None, "discriminant-too-large", f"u{N}: discriminant 2^{N}")
             add(N, [top + 1], "false", "discriminant-too-large", f"u{N}: only discriminant 2^{N}")
+    # variants without an explicit discriminant (rustc would number them previous + 1)
+    for (bits, names_discr, implicit, ex) in ((2, [0, 1, 2, 3], ["V1", "V2", "V3"], "true"), (2, [2, 0, 1, 3], ["V2"], "true"), (4, [8, 2, 3, 4], ["V2", "V3"], None),
+                                              (3, [0, 1, 2], ["V0", "V1", "V2"], "false"), (1, [0, 1], ["V1"], "true"), (8, [5, 6], ["V1"], None)):
+        vs = [(f"V{i}", d, None) for i, d in enumerate(names_discr)]
+        e = EnumDef("E", bits, vs, ex)
+        e.implicit = tuple(implicit)
+        e.tag = f"u{bits}: implicit discriminants for {implicit} (values previous+1 = {names_discr}), exhaustive={ex}"
+        C.append((e, "implicit-discriminant"))
     # unsupported storage sizes
     add(65, [0, 1], None, "bad-storage-size", "u65 storage")
     add(0, [0], None, "bad-storage-size", "u0 storage")
